@@ -667,6 +667,22 @@ func writeEvidence(prop, tier string, seed int, cfg PropCfg, eng *vc.Engine, res
 		}
 		assumptions = append(assumptions, r.Assumed...)
 	}
+	cpSeen := false
+	for _, o := range outs {
+		if o.Obl.Func != "codec-pair" {
+			continue
+		}
+		n := strings.TrimPrefix(o.Obl.Name, "codec-pair@")
+		funcs = append(funcs, map[string]any{"function": "(*" + n + ").Encode + (*" + n + ").Decode (with the helpers they call, inlined)", "obligations": 1,
+			"arithmetic": "none (structural token-language comparison)", "status": o.Status, "detail": o.Obl.Desc})
+		if !cpSeen {
+			cpSeen = true
+			assumptions = append(assumptions,
+				"codec pairs: each primitive reader of proto/util is the inverse of the writer of the same kind; UUID/UUIDIntArray, Bool/Byte/Uint8, Int/Int32, Int64/UnixMilli are the same wire kinds",
+				"codec pairs: loop iteration counts are not compared (only prefix / body / suffix token languages); data-dependent branches are taken both ways independently in each direction",
+				"codec pairs: streams created inside a function (bytes.Buffer / bytes.NewReader scratch buffers) are not the packet stream; reads and writes on them are not tokens")
+		}
+	}
 	var tb []string
 	for t := range trusted {
 		why := ""
